@@ -1322,6 +1322,24 @@ class Gen:
                 return False
             idx = [rng.randrange(-a.shape[ax], a.shape[ax]) for _ in range(rng.randint(1, 6))]
             return self._add({"op": "take", "in": [i], "p": {"indices": idx, "axis": ax}}) is not None
+        if rng.random() < 0.12:
+            # new axes mixed with reversed / strided slices (the order in which indexing applies its steps matters)
+            key = []
+            for d in a.shape:
+                if rng.random() < 0.45:
+                    key.append(None)
+                rr = rng.random()
+                if rr < 0.55 and d > 0:
+                    key.append(slice(rng.choice([None, None, rng.randint(-d, d)]), rng.choice([None, None, rng.randint(-d - 1, d)]), rng.choice([-1, -1, -2, -3])))
+                elif rr < 0.7 and d > 0:
+                    key.append(rng.randrange(-d, d))
+                elif rr < 0.85:
+                    key.append(slice(None, None, rng.choice([None, 2])))
+                else:
+                    key.append(slice(None))
+            if rng.random() < 0.3:
+                key.append(None)
+            return self._add({"op": "index", "in": [i], "p": {"key": enc_key(key)}}) is not None
         key = []
         used_arr = False
         dims = list(a.shape)
@@ -1360,7 +1378,7 @@ class Gen:
 
     def fam_linalg(self):
         rng = self.rng
-        op = rng.choice(["matmul", "matmul", "tensordot", "vecdot", "outer", "qr", "svd", "svdvals"])
+        op = rng.choice(["matmul", "matmul", "tensordot", "tensordot", "vecdot", "outer", "qr", "svd", "svdvals"])
         fdt = rng.choice(["float64", "float64", "int64", "float32"])
         if rng.random() < 0.2 and op in ("matmul", "tensordot", "vecdot", "outer"):
             # the same array for both operands (different index expressions on one array)
@@ -1401,18 +1419,35 @@ class Gen:
                 p["operator"] = True
             return self._add({"op": "matmul", "in": [i, j], "p": p}) is not None
         if op == "tensordot":
-            nd_a, nd_b = rng.randint(1, 3), rng.randint(1, 3)
-            nc = rng.randint(0, min(nd_a, nd_b, 2))
+            nd_a, nd_b = rng.choice([1, 2, 3, 3]), rng.choice([1, 2, 3, 3])
+            nc = min(rng.choice([0, 1, 1, 2, 2, 2]), nd_a, nd_b)
             common = [rng.randint(1, 5) for _ in range(nc)]
             sa = [rng.randint(1, 5) for _ in range(nd_a - nc)] + common
             sb = common + [rng.randint(1, 5) for _ in range(nd_b - nc)]
-            if rng.random() < 0.5:
+            r = rng.random()
+            if r < 0.25:
                 axes = nc
+            elif r < 0.35:
+                axes = [list(range(nd_a - nc, nd_a)), list(range(nc))]
             else:
-                axa = list(range(nd_a - nc, nd_a))
-                axb = list(range(nc))
-                # shuffle positions
-                axes = [axa, axb]
+                # contracted axes at arbitrary positions and in arbitrary (also non-ascending) order, now and then
+                # counted from the end
+                free_a = [rng.randint(1, 5) for _ in range(nd_a - nc)]
+                free_b = [rng.randint(1, 5) for _ in range(nd_b - nc)]
+                pos_a = rng.sample(range(nd_a), nc)
+                pos_b = rng.sample(range(nd_b), nc)
+                sa, sb = [None] * nd_a, [None] * nd_b
+                for c_, pa, pb in zip(common, pos_a, pos_b):
+                    sa[pa] = c_
+                    sb[pb] = c_
+                it_a, it_b = iter(free_a), iter(free_b)
+                sa = [x if x is not None else next(it_a) for x in sa]
+                sb = [x if x is not None else next(it_b) for x in sb]
+                if rng.random() < 0.3:
+                    pos_a = [x - nd_a for x in pos_a]
+                if rng.random() < 0.3:
+                    pos_b = [x - nd_b for x in pos_b]
+                axes = [pos_a, pos_b]
             i = self._add(self.new_leaf(shape=sa, dtype=fdt))
             j = self._add(self.new_leaf(shape=sb, dtype=fdt))
             p = {"axes": axes}
@@ -1521,8 +1556,8 @@ class Gen:
             return self._add({"op": op, "in": [i], "p": p}) is not None
         p = {"fn": f}
         if f == "arange":
-            step = rng.choice([1, 1, 2, 3, -1, 0.5])
-            start = rng.randint(-3, 5)
+            step = rng.choice([1, 1, 2, 3, -1, 0.5, 0.1, 0.1, 0.3, -0.1, 0.7])
+            start = rng.randint(-3, 5) if step not in (0.1, 0.3, -0.1, 0.7) or rng.random() < 0.7 else rng.choice([0.2, 1.1, -0.3])
             n = rng.randint(0 if self.allow_zero else 1, 2 * self.maxdim)
             p.update(start=start, stop=start + step * n if rng.random() < 0.7 else start + step * n + (0.5 * step if isinstance(step, float) else 0), step=step)
             size = n
@@ -1825,3 +1860,140 @@ def has_zero_size(np_vals):
             if getattr(x, "size", 1) == 0:
                 return True
     return False
+
+
+# ---------------------------------------------------------------------------------------------
+# parameter sweep: single-operation recipes that enumerate the discrete parameters of the public
+# functions (axes, axis orders, positions of new axes, signs of steps ...) for 1-3 dimensions; the
+# geometry (dimension sizes, chunking, dtype) of each case is drawn at random
+
+
+def _sweep_specs():
+    """-> list of (op, ndims of the inputs, params) ; params may contain callables of the drawn shapes"""
+    import itertools
+
+    S = []
+    # tensordot: every ordered choice of contracted axes
+    for nda in (1, 2, 3):
+        for ndb in (1, 2, 3):
+            for nc in range(0, min(2, nda, ndb) + 1):
+                for pa in itertools.permutations(range(nda), nc):
+                    for pb in itertools.permutations(range(ndb), nc):
+                        S.append(("tensordot", (nda, ndb), {"axes": [list(pa), list(pb)], "_contract": (pa, pb)}))
+    # indexing: per dimension {all, reversed, strided, reversed+strided, integer}, a new axis nowhere or at one position
+    kinds = ("all", "rev", "step", "revstep", "int")
+    for nd in (1, 2, 3):
+        for combo in itertools.product(kinds, repeat=nd):
+            for newat in [None] + list(range(nd + 1)):
+                if nd == 3 and ((sum((kinds.index(c_) + 1) * (7**i_) for i_, c_ in enumerate(combo)) + (newat or 0) * 3) % 3):
+                    continue
+                S.append(("index", (nd,), {"_key": (combo, newat)}))
+    for nd in (2, 3):
+        for perm in itertools.permutations(range(nd)):
+            S.append(("permute_dims", (nd,), {"axes": list(perm)}))
+    for nd in (1, 2, 3):
+        for s_ in range(-nd, nd):
+            for d_ in range(-nd, nd):
+                S.append(("moveaxis", (nd,), {"source": s_, "destination": d_}))
+        for r in range(0, nd + 1):
+            for axs in itertools.combinations(range(nd), r):
+                ax = None if r == 0 else (axs[0] if r == 1 else list(axs))
+                S.append(("flip", (nd,), {"axis": ax}))
+                if r == 1:
+                    S.append(("flip", (nd,), {"axis": axs[0] - nd}))
+                for red in ("sum", "max", "mean", "prod", "any"):
+                    for kd in (False, True):
+                        S.append((red, (nd,), {"axis": ax, "keepdims": kd, "split_every": None}))
+                if r >= 1:
+                    S.append(("roll", (nd,), {"shift": [2, -1, 3][:r] if r > 1 else 2, "axis": list(axs) if r > 1 else axs[0]}))
+        for ax in range(-nd, nd):
+            for red in ("argmax", "argmin"):
+                for kd in (False, True):
+                    S.append((red, (nd,), {"axis": ax, "keepdims": kd, "split_every": None}))
+            S.append(("cumulative_sum", (nd,), {"axis": ax}))
+            S.append(("diff", (nd,), {"axis": ax, "n": 1}))
+            S.append(("diff", (nd,), {"axis": ax, "n": 2}))
+            S.append(("repeat", (nd,), {"repeats": 2, "axis": ax}))
+            S.append(("take", (nd,), {"indices": [1, 0, -1], "axis": ax % nd}))
+            S.append(("unstack", (nd,), {"axis": ax}))
+            S.append(("concat", (nd, nd), {"axis": ax}))
+        for ax in range(-nd - 1, nd + 1):
+            S.append(("expand_dims", (nd,), {"axis": ax}))
+            S.append(("stack", (nd, nd), {"axis": ax}))
+        for ax in range(nd):
+            for bw in ((1, 0), (0, 2), (2, 1)):
+                pw = [[0, 0]] * nd
+                pw = [list(bw) if k == ax else [0, 0] for k in range(nd)]
+                S.append(("pad", (nd,), {"mode": "constant", "pad_width": pw, "constant_values": 7}))
+    for k in range(-2, 3):
+        S.append(("tril", (2,), {"k": k}))
+        S.append(("triu", (2,), {"k": k}))
+    for ax in (-1, -2, 0, 1):
+        S.append(("vecdot", (2, 2), {"axis": ax}))
+    return S
+
+
+def param_sweep(seed, index=0, of=1):
+    """Yields (recipe, np_vals, label) for the slice index/of of the enumerated parameter space."""
+    specs = _sweep_specs()
+    for n, (op, nds, p) in enumerate(specs):
+        if n % of != index:
+            continue
+        rng = random.Random(seed * 1000003 + n)
+        g = Gen(rng.getrandbits(40), allow_zero=False)
+        p = dict(p)
+        dt = rng.choice(["int64", "float64", "int64", "float32"]) if op not in ("any",) else "bool"
+        if op in ("mean",):
+            dt = "float64"
+        shapes = [[rng.randint(2, 5) for _ in range(nd)] for nd in nds]
+        if op == "tensordot":
+            pa, pb = p.pop("_contract")
+            for a_, b_ in zip(pa, pb):
+                shapes[1][b_] = shapes[0][a_]
+        elif op == "vecdot":
+            shapes[1] = list(shapes[0])
+        elif op == "concat":
+            ax = p["axis"] % nds[0]
+            shapes[1] = [d if k == ax else shapes[0][k] for k, d in enumerate(shapes[1])]
+        elif op == "stack":
+            shapes[1] = list(shapes[0])
+        elif op == "index":
+            combo, newat = p.pop("_key")
+            key = []
+            for k, (kind_, d) in enumerate(zip(combo, shapes[0])):
+                if newat == k:
+                    key.append(None)
+                if kind_ == "all":
+                    key.append(slice(None))
+                elif kind_ == "rev":
+                    key.append(slice(None, None, -1))
+                elif kind_ == "step":
+                    key.append(slice(rng.choice([None, 1]), None, 2))
+                elif kind_ == "revstep":
+                    key.append(slice(rng.choice([None, d - 1]), rng.choice([None, 0]), -2))
+                else:
+                    key.append(rng.randrange(-d, d))
+            if newat == len(combo):
+                key.append(None)
+            p["key"] = enc_key(key)
+        nodes = [g.new_leaf(shape=s, dtype=dt) for s in shapes]
+        if op in ("concat", "stack") and rng.random() < 0.5:
+            nodes[1]["p"]["chunks"] = list(nodes[0]["p"]["chunks"]) if op == "stack" else nodes[1]["p"]["chunks"]
+        nodes.append({"op": op, "in": list(range(len(shapes))), "p": p})
+        vals = {}
+        try:
+            with warnings.catch_warnings():
+                warnings.simplefilter("ignore")
+                for i, nd_ in enumerate(nodes):
+                    vals[i] = np_eval_node(nd_, vals)
+                last = len(nodes) - 1
+                outs = [last]
+                if isinstance(vals[last], tuple):
+                    outs = []
+                    for t in range(len(vals[last])):
+                        nodes.append({"op": "pick", "in": [last], "p": {"i": t}})
+                        vals[len(nodes) - 1] = np_eval_node(nodes[-1], vals)
+                        outs.append(len(nodes) - 1)
+        except Exception:
+            continue
+        yield {"nodes": nodes, "outputs": outs}, vals, f"{op}:{n}"
